@@ -69,7 +69,7 @@ PLANNED_TAGS = [
     'build:organize', 'build:direct', 'P!=1', 'ads_act:get_G_act', 'motz:on',
     # A1
     'hist:cti', 'hist:yaml', 'hist:add_rxn', 'hist:add_li', 'hist:same writer twice',
-    'hist:write after add',
+    'hist:write after add', 'hist:add_bep', 'hist:edit', 'hist:write after edit',
 ]
 
 LEVEL_TEXT = ('Bounded exhaustive exploration of the real writers: BFS over phase-population histories on '
@@ -164,7 +164,33 @@ def _k(name):
     return 1.0 + 0.37 * sorted(SPEC).index(name)
 
 
-def make_species(name, cls, phase_as_name=True, phase=None):
+# numeric typing of the species inputs (family "integer-typed / NumPy-typed inputs"):
+#   form: (temperature bound, element count, n_sites, coefficient array)
+SP_FORMS = ['plain', 'pyfloat', 'int', 'np', 'npint']
+# order in which the SingleNasa9 intervals are handed to Nasa9 (family "unsorted / descending arrays");
+# positions refer to the ascending list of three intervals
+N9_ORDERS = {'asc': [0, 1, 2], 'desc': [2, 1, 0], 'rot': [1, 2, 0], 'swap': [1, 0, 2], 'two-desc': [1, 0],
+             'one': [0]}
+
+
+def _sp_casters(form):
+    """-> (T, element count, n_sites, coefficients) casters of one numeric form."""
+    rnd = lambda v: int(round(v))                                        # noqa: E731
+    if form == 'plain':
+        return float, int, int, lambda a: np.array(a, dtype=float)
+    if form == 'pyfloat':                         # what pmutt.io.excel.read_excel hands over
+        return float, float, float, lambda a: np.array(a, dtype=float)
+    if form == 'int':
+        return rnd, int, int, lambda a: np.array([rnd(v) for v in a], dtype=np.int64)
+    if form == 'np':
+        return np.float64, np.int64, np.int64, lambda a: np.array(a, dtype=float)
+    if form == 'npint':
+        return (lambda v: np.int64(rnd(v))), np.float64, np.float64, \
+            lambda a: np.array([rnd(v) for v in a], dtype=np.int32)
+    raise ValueError(form)
+
+
+def make_species(name, cls, phase_as_name=True, phase=None, form='plain', n9='asc'):
     """One species object of the requested polynomial class from the table."""
     from pmutt.empirical.nasa import Nasa, Nasa9, SingleNasa9
     from pmutt.empirical.shomate import Shomate
@@ -172,26 +198,29 @@ def make_species(name, cls, phase_as_name=True, phase=None):
     if name == 'Ar':
         return Shomate(name='Ar', elements={'Ar': 1}, phase='gas' if phase_as_name else phase,
                        T_low=298., T_high=6000., a=np.array(AR_A))
+    fT, fE, fS, fA = _sp_casters(form)
     el, ph, cp, h, s, ns = SPEC[name]
+    el = {k_: fE(v) for k_, v in el.items()}
+    ns = None if ns is None else fS(ns)
     k = _k(name)
     ph = ph if phase_as_name else phase
     if cls == 'nasa':
-        al = np.array([cp, 1.1e-3 * k, -1.3e-6 * k, 1.7e-9 * k, -1.9e-13 * k, h - 50.25 * k, s])
-        ah = np.array([cp + 0.125, 0.9e-3 * k, -0.7e-6 * k, 0.3e-9 * k, -0.5e-13 * k, h - 61.5 * k, s + 0.375])
-        return Nasa(name=name, elements=dict(el), phase=ph, a_low=al, a_high=ah, T_low=200. + k,
-                    T_mid=480. + 3 * k, T_high=1500. + 7 * k, n_sites=ns)
+        al = fA([cp, 1.1e-3 * k, -1.3e-6 * k, 1.7e-9 * k, -1.9e-13 * k, h - 50.25 * k, s])
+        ah = fA([cp + 0.125, 0.9e-3 * k, -0.7e-6 * k, 0.3e-9 * k, -0.5e-13 * k, h - 61.5 * k, s + 0.375])
+        return Nasa(name=name, elements=el, phase=ph, a_low=al, a_high=ah, T_low=fT(200. + k),
+                    T_mid=fT(480. + 3 * k), T_high=fT(1500. + 7 * k), n_sites=ns)
     if cls == 'nasa9':
         segs = []
         bounds = [200. + k, 480. + 3 * k, 1000. + 5 * k, 2500. + 7 * k]
         for j in range(3):
-            a = np.array([11.0 * k * (j + 1), -0.31 * k, cp + 0.0625 * j, 1.1e-3 * k, -1.3e-6 * k, 1.7e-9 * k,
-                          -1.9e-13 * k / (j + 1), h - 50.25 * k - j, s + 0.125 * j])
-            segs.append(SingleNasa9(T_low=bounds[j], T_high=bounds[j + 1], a=a))
-        return Nasa9(name=name, elements=dict(el), phase=ph, nasas=segs, n_sites=ns)
+            a = fA([11.0 * k * (j + 1), -0.31 * k, cp + 0.0625 * j, 1.1e-3 * k, -1.3e-6 * k, 1.7e-9 * k,
+                    -1.9e-13 * k / (j + 1), h - 50.25 * k - j, s + 0.125 * j])
+            segs.append(SingleNasa9(T_low=fT(bounds[j]), T_high=fT(bounds[j + 1]), a=a))
+        return Nasa9(name=name, elements=el, phase=ph, nasas=[segs[j] for j in N9_ORDERS[n9]], n_sites=ns)
     if cls == 'shomate':
         R = c.R('J/mol/K')
-        a = np.array([cp * R, 1.9 * k, -1.1 * k, 0.23 * k, 0.011 * k, h * R / 1000. - 0.05 * k, s * R + 7.0, 0.5 * k])
-        return Shomate(name=name, elements=dict(el), phase=ph, a=a, T_low=250. + k, T_high=1700. + 7 * k,
+        a = fA([cp * R, 1.9 * k, -1.1 * k, 0.23 * k, 0.011 * k, h * R / 1000. - 0.05 * k, s * R + 7.0, 0.5 * k])
+        return Shomate(name=name, elements=el, phase=ph, a=a, T_low=fT(250. + k), T_high=fT(1700. + 7 * k),
                        n_sites=ns)
     raise ValueError(cls)
 
@@ -258,7 +287,11 @@ def _phase_kwargs(cls, name):
     return dict(name=name)
 
 
-def _build_phases(setup):
+C_ORG_ALONE = "organize_phases leaves the caller's dictionaries as they were"
+C_ORG_AGAIN = 'organize_phases called again with the same arguments gives the same phases'
+
+
+def _build_phases(setup, probe=None):
     """-> (real phase objects, species pool dict, reference lists)."""
     from pmutt.omkm import phase as omkm_phase
     from pmutt.io.omkm import organize_phases
@@ -284,7 +317,23 @@ def _build_phases(setup):
         for cls, name, init in specs:
             order += [pool[n] for n in (init or [])]
         order += [pool[n] for n in POOL if pool[n] not in order]
+        before = copy.deepcopy(data)
         phases = organize_phases(data, species=order)
+        if probe is not None:
+            # the caller's list of dictionaries is the caller's: unchanged, and usable for a second call
+            ctx, case = probe
+            sig = {'part': 'phases', 'via': 'organize', 'op': 'organize_phases'}
+            same = [sorted(d.items(), key=str) for d in data] == [sorted(d.items(), key=str) for d in before]
+            ctx.true(C_ORG_ALONE, same, dict(sig, item="caller's dictionaries"), case,
+                     [sorted(set(a) ^ set(b)) for a, b in zip(data, before)], 'unchanged')
+            try:
+                again = organize_phases(data, species=order)
+                obs = [[type(ph).__name__, ph.name, [sp.name for sp in ph.species]] for ph in again]
+            except KeyError as e:
+                obs = 'KeyError %s' % e
+            ctx.equal(C_ORG_AGAIN, obs, [[type(ph).__name__, ph.name, [sp.name for sp in ph.species]] for ph in phases],
+                      dict(sig, item='second call'), case)
+            ctx.evals(2)
     else:
         phases = []
         for cls, name, init in specs:
@@ -430,7 +479,7 @@ def _ph_replay(case, ctx, check_all):
     setup, ops = case['setup'], case['ops']
     _reset_defaults()
     try:
-        phases, pool, refl = _build_phases(setup)
+        phases, pool, refl = _build_phases(setup, probe=(ctx, case) if (check_all or not ops) else None)
         ctx.trace()
         ok = True
         if check_all or not ops:
@@ -518,7 +567,11 @@ def make_units(kind):
 
 DEF_CFG = dict(gas='nasa', surf='nasa', sites=2, build='organize', ids='auto', ads='gas_first', Ea='calc',
                A='calc', li=2, li_names='auto', bep=1, units='ex', T=700., P=1., motz=False,
-               ads_act='get_H_act', out='str', sections='all')
+               ads_act='get_H_act', out='str', sections='all',
+               # representation coordinates (part "forms"); the defaults are what B2 / A1 always used
+               sp_form='plain', n9='asc', stick='table', beta='table', li_form='list', bep_form='float',
+               bep_names='user', ph_form='float', TP_form='float', units_arg='obj', li_arg='none',
+               prior='none')
 COORDS = dict(sections=['all', 'no_phases', 'no_species'], gas=['nasa', 'nasa9', 'shomate'], surf=['nasa', 'shomate', 'nasa9'], sites=[2, 1],
               build=['organize', 'direct'], ids=['auto', 'user', 'mix', 'clash'], ads=['gas_first', 'surf_first'],
               Ea=['calc', 'given'], A=['calc', 'given'], li=[2, 0, 1, 3], li_names=['auto', 'user', 'mix'],
@@ -568,6 +621,45 @@ def reaction_table(cfg):
 
 EXTRA_RXN = ('plain', 'N(T) + H(T) + RU(B) = NH(T) + RU(T)', {})
 
+# kinds of the explicit rate inputs (families "boundary values of explicit options" and "integer-typed /
+# NumPy-typed inputs"); 'calc' / 'given' / 'table' are what reaction_table itself does
+EA_KINDS = ['calc', 'given', 'zero', 'izero', 'npzero', 'altzero', 'int', 'np']
+A_KINDS = ['calc', 'given', 'float', 'int', 'np', 'zero']
+STICK_KINDS = ['table', 'zero', 'izero', 'one', 'np', 'none']
+BETA_KINDS = ['table', 'zero', 'izero', 'one', 'neg', 'np', 'none']
+
+
+def rate_inputs(cfg, table):
+    """Apply the rate-input kinds of the configuration to every reaction of the table (each reaction gets
+    its own number, so that two reactions never carry the same value by accident)."""
+    out = []
+    for i, (tag, string, kw) in enumerate(table):
+        kw = dict(kw)
+        ads = bool(kw.get('is_adsorption'))
+        ek = cfg.get('Ea', 'calc')
+        if ek in ('zero', 'izero', 'npzero'):
+            kw['Ea'] = {'zero': 0.0, 'izero': 0, 'npzero': np.float64(0.)}[ek]
+        elif ek == 'altzero':
+            kw['Ea'] = 0.0 if i % 2 == 0 else None
+        elif ek == 'int':
+            kw['Ea'] = 3 + 2 * i
+        elif ek == 'np':
+            kw['Ea'] = np.float64(2.5 + 1.25 * i)
+        ak = cfg.get('A', 'calc')
+        if not ads and ak not in ('calc', 'given'):
+            kw['A'] = {'float': 1.0e13 * (i + 1), 'int': 10 ** 12 * (i + 1), 'np': np.float64(2.5e12 * (i + 1)),
+                       'zero': 0.0}[ak]
+        sk = cfg.get('stick', 'table')
+        if ads and sk != 'table':
+            kw['sticking_coeff'] = {'zero': 0.0, 'izero': 0, 'one': 1, 'np': np.float64(0.25 + 0.125 * i),
+                                    'none': None}[sk]
+        bk = cfg.get('beta', 'table')
+        if bk != 'table':
+            kw['beta'] = {'zero': 0.0, 'izero': 0, 'one': 1, 'neg': -0.5 - 0.25 * i, 'np': np.float64(0.25 * (i + 1)),
+                          'none': None}[bk]
+        out.append((tag, string, kw))
+    return out
+
 
 def _ids_for(cfg, n):
     k = cfg['ids']
@@ -575,6 +667,8 @@ def _ids_for(cfg, n):
         return [None] * n
     if k == 'user':
         return ['rxn_%04d' % (10 + i) for i in range(n)]
+    if k == 'desc':
+        return ['rxn_%04d' % (40 - i) for i in range(n)]
     if k == 'mix':
         return [('m_%04d' % (3 * i) if i % 2 == 0 else None) for i in range(n)]
     if k == 'clash':
@@ -582,6 +676,66 @@ def _ids_for(cfg, n):
         out[-1] = 'r_0001'
         return out
     raise ValueError(k)
+
+
+# representation of the interaction / BEP / phase numbers
+LI_FORMS = ['list', 'int', 'tuple', 'array', 'list-np', 'intarr']
+BEP_FORMS = ['float', 'int', 'np', 'zero']
+BEP_NAMES = ['user', 'auto', 'clash', 'mix']
+PH_FORMS = ['float', 'np', 'int']
+
+
+def _li_kwargs(kw, form):
+    kw = copy.deepcopy(kw)
+    iv, sl = kw['intervals'], kw['slopes']
+    if form == 'list':
+        pass
+    elif form == 'int':                     # what read_excel gives for "0, 1" style cells
+        kw['intervals'] = [int(v) if float(v).is_integer() else v for v in iv]
+        kw['slopes'] = [int(round(v)) for v in sl]
+    elif form == 'tuple':
+        kw['intervals'], kw['slopes'] = tuple(iv), tuple(sl)
+    elif form == 'array':
+        kw['intervals'], kw['slopes'] = np.array(iv), np.array(sl)
+    elif form == 'list-np':
+        kw['intervals'], kw['slopes'] = [np.float64(v) for v in iv], [np.float64(v) for v in sl]
+    elif form == 'intarr':
+        kw['intervals'], kw['slopes'] = np.array(iv), np.array([int(round(v)) for v in sl], dtype=np.int64)
+    else:
+        raise ValueError(form)
+    return kw
+
+
+def _bep_kwargs(kw, form, j):
+    kw = dict(kw)
+    if form == 'int':
+        kw['slope'], kw['intercept'] = 1, 20 + j
+    elif form == 'np':
+        kw['slope'], kw['intercept'] = np.float64(kw['slope']), np.float64(kw['intercept'])
+    elif form == 'zero':
+        kw['slope'], kw['intercept'] = 0.0, 0.0
+    elif form != 'float':
+        raise ValueError(form)
+    return kw
+
+
+def _bep_names_for(cfg, keys):
+    k = cfg.get('bep_names', 'user')
+    if k == 'user':
+        return list(keys)
+    if k == 'auto':
+        return [None] * len(keys)
+    if k == 'clash':                        # a user name that looks like an automatic one, after an unnamed BEP
+        return [None] * (len(keys) - 1) + ['b_0000'] if len(keys) > 1 else ['b_0000']
+    if k == 'mix':
+        return [(n if i % 2 == 0 else None) for i, n in enumerate(keys)]
+    raise ValueError(k)
+
+
+def _ph_num(value, form):
+    if form == 'np':
+        return np.float64(value)
+    return value
 
 
 class Model:
@@ -602,19 +756,27 @@ def build_model(cfg, phases=True):
     m.species = []
     for n in names:
         cls = 'shomate' if n == 'Ar' else (cfg['gas'] if SPEC[n][1] == 'gas' else cfg['surf'])
-        m.species.append(make_species(n, cls))
-    m.beps = [BEP(name=bn, **BEP_TABLE[bn]) for bn in list(BEP_TABLE)[:cfg['bep']]]
-    d = pmutt_list_to_dict(m.species + m.beps)
-    table = reaction_table(cfg)
+        m.species.append(make_species(n, cls, form=cfg.get('sp_form', 'plain'), n9=cfg.get('n9', 'asc')))
+    keys = list(BEP_TABLE)[:cfg['bep']]
+    m.bep_keys = keys
+    m.beps = [BEP(name=nm, **_bep_kwargs(BEP_TABLE[bn], cfg.get('bep_form', 'float'), j))
+              for j, (bn, nm) in enumerate(zip(keys, _bep_names_for(cfg, keys)))]
+    d = pmutt_list_to_dict(m.species)
+    for bn, b in zip(keys, m.beps):         # the key a reaction string uses; the BEP itself may be unnamed
+        d[bn] = b
+    m.lookup = d
+    table = rate_inputs(cfg, reaction_table(cfg))
     ids = _ids_for(cfg, len(table))
     m.rxn_tags = [t[0] for t in table]
     m.reactions = [SurfaceReaction.from_string(s, d, id=i, **kw) for (tag, s, kw), i in zip(table, ids)]
     li_names = {'auto': [None, None, None], 'user': ['lat_0004', 'lat_0005', 'lat_0006'],
                 'mix': ['q_0002', None, None]}[cfg['li_names']]
-    m.interactions = [PiecewiseCovEffect(name=nm, **copy.deepcopy(kw))
+    m.interactions = [PiecewiseCovEffect(name=nm, **_li_kwargs(kw, cfg.get('li_form', 'list')))
                       for kw, nm in zip(LI_TABLE[:cfg['li']], li_names)]
     m.units = make_units(cfg['units'])
     m.phase_names = ['gas', 'bulk', 'terrace'] + (['step'] if cfg['sites'] == 2 else [])
+    m.sden = dict(SDEN)                     # site densities / density the phases are (re)built with
+    m.density = 12 if cfg.get('ph_form') == 'int' else DENSITY
     if phases:
         attach_phases(m)
     return m
@@ -625,12 +787,13 @@ def attach_phases(m):
     from pmutt.io.omkm import organize_phases
     from pmutt.omkm import phase as omkm_phase
     cfg = m.cfg
+    pf = cfg.get('ph_form', 'float')
     data = [dict(name='gas', phase_type='IdealGas', initial_state={'NH3': 1.0}),
-            dict(name='bulk', phase_type='StoichSolid', density=DENSITY),
-            dict(name='terrace', phase_type='InteractingInterface', site_density=SDEN['terrace'],
+            dict(name='bulk', phase_type='StoichSolid', density=_ph_num(m.density, pf)),
+            dict(name='terrace', phase_type='InteractingInterface', site_density=_ph_num(m.sden['terrace'], pf),
                  phases=['gas', 'bulk'], initial_state={'RU(T)': 1.0})]
     if cfg['sites'] == 2:
-        data.append(dict(name='step', phase_type='InteractingInterface', site_density=SDEN['step'],
+        data.append(dict(name='step', phase_type='InteractingInterface', site_density=_ph_num(m.sden['step'], pf),
                          phases=['gas', 'bulk'], initial_state={'RU(S)': 1.0}))
     inter = m.interactions if m.interactions else None
     if cfg['build'] == 'organize' and not getattr(m, 'organized', False):
@@ -694,16 +857,20 @@ def expected_model(m, req):
     act = U['act_energy']
     T, P = req['T'], req['P']
     ex = dict(units=dict(U))
+    # what the phase objects say (mol/cm2, g/cm3)
+    sden = {ph.name: float(ph.site_density) for ph in m.phases if getattr(ph, 'site_density', None) is not None}
+    dens = {ph.name: float(ph.density) for ph in m.phases if getattr(ph, 'density', None) is not None}
     # species
     ex['species'] = [species_record(s) for s in m.species]
     # reactions
     rx = []
     for r, tag in zip(m.reactions, m.rxn_tags):
+        bep = getattr(r, 'bep', None)
         rec = dict(tag=tag, user_id=r.id,
                    reactants=[(float(st), s.name) for s, st in zip(r.reactants, r.reactants_stoich)],
                    products=[(float(st), s.name) for s, st in zip(r.products, r.products_stoich)],
                    b=float(r.beta), phases=sorted(rxn_phase_names(r)),
-                   bep=(r.bep.name if getattr(r, 'bep', None) is not None else None),
+                   bep=([k for k, b in enumerate(m.beps) if b is bep][0] if bep is not None else None),
                    direction=r.direction)
         if r.is_adsorption:
             rec['kind'] = 'stick'
@@ -711,7 +878,7 @@ def expected_model(m, req):
             gas = [s.name for s in r.reactants if phase_name_of(s.name) == 'gas']
             rec['sticking_species'] = gas[0]
             if r.Ea is not None:
-                rec['Ea'] = c.convert_unit(r.Ea, initial='kcal/mol', final=act)
+                rec['Ea'] = float(c.convert_unit(float(r.Ea), initial='kcal/mol', final=act))
             else:
                 rec['Ea'] = float(getattr(r, req['ads_act'])(units=act, T=T, P=P))
         else:
@@ -722,12 +889,12 @@ def expected_model(m, req):
                 sig_eff, n = 0.0, 0.0
                 for s, st in zip(r.reactants, r.reactants_stoich):
                     pn = phase_name_of(s.name)
-                    if pn in SDEN:
-                        sig_eff += st * SDEN[pn] * Q / L ** 2
+                    if pn in sden:
+                        sig_eff += st * sden[pn] * Q / L ** 2
                         n += st
                 rec['A'] = c.kb('J/K') / c.h('J s') / sig_eff ** (n - 1)
             if r.Ea is not None:
-                rec['Ea'] = c.convert_unit(r.Ea, initial='kcal/mol', final=act)
+                rec['Ea'] = float(c.convert_unit(float(r.Ea), initial='kcal/mol', final=act))
             else:
                 rec['Ea'] = float(r.get_G_act(units=act, T=T, P=P))
         rx.append(rec)
@@ -737,19 +904,19 @@ def expected_model(m, req):
     ex['interactions'] = [dict(pair=[i.name_i, i.name_j], thresholds=[float(v) for v in i.intervals],
                                strengths=[float(v) * c.convert_unit(initial='kcal', final=U['energy']) / Q for v in i.slopes],
                                unit=fin, user_id=i.name, phase=phase_name_of(i.name_i)) for i in m.interactions]
-    # beps (those some reaction uses, in order of first use)
+    # beps (those some reaction uses, in order of first use; identified by object, a BEP may be unnamed)
     used = []
     for rec in rx:
         if rec['bep'] is not None and rec['bep'] not in used:
             used.append(rec['bep'])
     ex['beps'] = []
-    for bn in used:
-        b = [x for x in m.beps if x.name == bn][0]
-        ex['beps'].append(dict(name=bn, slope=float(b.slope),
-                               intercept=c.convert_unit(float(b.intercept), initial='kcal/mol', final=act),
+    for bi in used:
+        b = m.beps[bi]
+        ex['beps'].append(dict(name=b.name, slope=float(b.slope),
+                               intercept=float(c.convert_unit(float(b.intercept), initial='kcal/mol', final=act)),
                                direction=b.direction,
-                               cleavage=[k for k, rec in enumerate(rx) if rec['bep'] == bn and rec['direction'] == 'cleavage'],
-                               synthesis=[k for k, rec in enumerate(rx) if rec['bep'] == bn and rec['direction'] == 'synthesis']))
+                               cleavage=[k for k, rec in enumerate(rx) if rec['bep'] == bi and rec['direction'] == 'cleavage'],
+                               synthesis=[k for k, rec in enumerate(rx) if rec['bep'] == bi and rec['direction'] == 'synthesis']))
     # phases
     ph = []
     for name in m.phase_names:
@@ -760,20 +927,20 @@ def expected_model(m, req):
         rec = dict(name=name, species=[s.name for s in sp], elements=sorted(els),
                    kind={'gas': 'ideal_gas', 'bulk': 'stoichiometric_solid'}.get(name, 'interacting_interface'))
         if name in SDEN:
-            rec['site_density'] = SDEN[name] * Q / L ** 2
+            rec['site_density'] = sden[name] * Q / L ** 2
             rec['sd_unit'] = '%s/%s^2' % (U['quantity'], U['length'])
             rec['rxn'] = [k for k, r in enumerate(rx) if name in r['phases']]
             rec['li'] = [k for k, i in enumerate(ex['interactions']) if i['phase'] == name]
-            rec['beps'] = []
+            rec['beps'] = []                 # positions in ex['beps']
             for k in rec['rxn']:
-                if rx[k]['bep'] is not None and rx[k]['bep'] not in rec['beps']:
-                    rec['beps'].append(rx[k]['bep'])
+                if rx[k]['bep'] is not None and used.index(rx[k]['bep']) not in rec['beps']:
+                    rec['beps'].append(used.index(rx[k]['bep']))
         else:
             rec['rxn'] = []
             rec['li'] = []
             rec['beps'] = []
         if name == 'bulk':
-            rec['density'] = DENSITY * M / L ** 3
+            rec['density'] = dens[name] * M / L ** 3
         ph.append(rec)
     ex['phases'] = ph
     return ex
@@ -782,6 +949,10 @@ def expected_model(m, req):
 # =============================================================================================
 # reading the two file formats into the same neutral shape
 # =============================================================================================
+def _is_num(v):
+    return isinstance(v, (int, float)) and not isinstance(v, bool)
+
+
 def _floats(v):
     if not isinstance(v, (list, tuple)):
         return None
@@ -959,8 +1130,9 @@ C_BEP = 'each BEP once with id, direction and member reactions'
 C_BEP_NUM = 'BEP slope and intercept in the requested units'
 
 
-def compare(ex, got, req, ctx, case, part, supplied):
-    """supplied: set of {'phases','species','reactions','interactions'} given to the writer."""
+def compare(ex, got, req, ctx, case, part, supplied, empty_ok=()):
+    """supplied: set of {'phases','species','reactions','interactions'} given to the writer;
+    empty_ok: those of them that were supplied as an explicit empty list."""
     yamlf = got['fmt'] == 'yaml'
     tol_coef = 1e-13 if yamlf else 5.1e-9
     tol_rate = 1e-9 if yamlf else 5.1e-6
@@ -974,7 +1146,11 @@ def compare(ex, got, req, ctx, case, part, supplied):
         want = ['units'] + [s for s in ('phases', 'species', 'reactions', 'interactions') if s in supplied]
         if 'reactions' in supplied and ex['beps']:
             want.append('beps')
-        ok &= ctx.equal(C_SECT, sorted(got['sections']), sorted(want), S(item='sections'), case)
+        have = list(got['sections'])
+        for sec in empty_ok:                  # an empty list was supplied: an empty section or no section
+            if sec in want and sec not in have:
+                want.remove(sec)
+        ok &= ctx.equal(C_SECT, sorted(have), sorted(want), S(item='sections'), case)
     else:
         cnt = {k: len(got[k]) for k in ('phases', 'species', 'reactions', 'interactions', 'beps')}
         wantc = dict(phases=len(ex['phases']) if 'phases' in supplied else 0,
@@ -1065,19 +1241,26 @@ def compare(ex, got, req, ctx, case, part, supplied):
             if yamlf:
                 ok &= ctx.equal(C_LI_NUM, g['unit'], [e['unit']], dict(sg, field='unit'), case)
     # beps -----------------------------------------------------------------------------------
-    if rx_ok and ctx.equal(C_BEP, [b['id'] for b in got['beps']], [b['name'] for b in ex['beps']],
-                           S(item='beps', field='names'), case):
+    bep_ids = [b['id'] for b in got['beps']]
+    bp_ok = False
+    if rx_ok and ctx.equal(C_BEP, len(got['beps']), len(ex['beps']), S(item='beps', field='count'), case):
+        bp_ok = True
+        ok &= ctx.true(C_BEP, all(isinstance(i, str) and i not in ('', 'None', 'null', '~') for i in bep_ids)
+                       and len(set(bep_ids)) == len(bep_ids), S(item='beps', field='unique'), case, bep_ids,
+                       'distinct strings')
+        ok &= ctx.equal(C_BEP, [g['id'] for g, e in zip(got['beps'], ex['beps']) if e['name'] is not None],
+                        [e['name'] for e in ex['beps'] if e['name'] is not None], S(item='beps', field='names'), case)
         for g, e in zip(got['beps'], ex['beps']):
             sg = S(item='bep')
             ok &= ctx.equal(C_BEP, [g['direction'], sorted(g['cleavage'] or ['?']), sorted(g['synthesis'] or ['?'])]
                             if (g['cleavage'] is not None and g['synthesis'] is not None) else 'malformed',
                             [e['direction'], sorted(ids[k] for k in e['cleavage']) or ['?'],
                              sorted(ids[k] for k in e['synthesis']) or ['?']], dict(sg, field='members'), case)
-            if not isinstance(g['slope'], (int, float)) or not isinstance(g['intercept'], (int, float)):
+            if not _is_num(g['slope']) or not _is_num(g['intercept']):
                 ok &= ctx.fail(C_BEP_NUM, dict(sg, field='shape'), case, [g['slope'], g['intercept']], 'numbers')
                 continue
             ok &= ctx.close(C_BEP_NUM, [g['slope'], g['intercept']], [e['slope'], e['intercept']],
-                            dict(sg, field='slope/intercept'), case, rtol=tol_repr)
+                            dict(sg, field='slope/intercept'), case, rtol=tol_repr, atol=1e-300)
             ctx.evals()
             if yamlf:
                 ok &= ctx.equal(C_BEP_NUM, g['unit'], U['act_energy'], dict(sg, field='unit'), case)
@@ -1109,7 +1292,7 @@ def compare(ex, got, req, ctx, case, part, supplied):
                 sw = g['switch']
                 obs = [sw.get('reactions') not in (None, 'none'), sw.get('interactions') not in (None, 'none'),
                        sw.get('beps') not in (None, 'none')]
-                exp = [bool(e['rxn']) and rx_ok, bool(e['li']) and li_ok, bool(e['beps']) and rx_ok]
+                exp = [bool(e['rxn']) and rx_ok, bool(e['li']) and li_ok, bool(e['beps']) and bp_ok]
                 ok &= ctx.equal(C_PH_MEMB, obs, exp, dict(sg, field='switches'), case)
             else:
                 obs = [sorted(g['rxn_ids'] or []) if g['rxn_ids'] is not None or not e['rxn'] else 'malformed',
@@ -1117,7 +1300,7 @@ def compare(ex, got, req, ctx, case, part, supplied):
                        sorted(g['beps'] or []) if g['beps'] is not None else 'malformed']
                 exp = [sorted(ids[k] for k in e['rxn']) if rx_ok else [],
                        sorted(li_ids[k] for k in e['li']) if li_ok else [],
-                       sorted(e['beps']) if rx_ok else []]
+                       sorted(bep_ids[k] for k in e['beps']) if bp_ok else []]
                 ok &= ctx.equal(C_PH_MEMB, obs, exp, dict(sg, field='member ids'), case)
     return bool(ok)
 
@@ -1126,12 +1309,16 @@ def compare(ex, got, req, ctx, case, part, supplied):
 # B2 - thermo YAML / CTI of a freshly built model versus an untouched copy
 # =============================================================================================
 def _req(cfg):
-    return dict(units=cfg['units'], T=cfg['T'], P=cfg['P'], motz=cfg['motz'], ads_act=cfg['ads_act'])
+    f = {'float': float, 'int': lambda v: int(round(v)), 'np': np.float64}[cfg.get('TP_form', 'float')]
+    units = 'default' if cfg.get('units_arg') == 'none' else cfg['units']      # units=None means Units()
+    return dict(units=units, T=f(cfg['T']), P=f(cfg['P']), motz=cfg['motz'], ads_act=cfg['ads_act'])
 
 
 def _supplied(m):
     sec = m.cfg.get('sections', 'all')
     out = {'phases', 'species', 'reactions'} | ({'interactions'} if m.interactions else set())
+    if m.cfg.get('li_arg') == 'empty':
+        out.add('interactions')
     if sec == 'no_phases':
         out.discard('phases')
     if sec == 'no_species':
@@ -1139,15 +1326,31 @@ def _supplied(m):
     return out
 
 
+def _empty_ok(m):
+    return ('interactions',) if (m.cfg.get('li_arg') == 'empty' and not m.interactions) else ()
+
+
+def _writer_kwargs(m, req):
+    """The keyword arguments handed to write_cti / write_thermo_yaml for this model and request."""
+    sup = _supplied(m)
+    ua = m.cfg.get('units_arg', 'obj')
+    units = m.units if ua == 'obj' else (dict(UNIT_SYSTEMS[req['units']]) if ua == 'dict' else None)
+    if m.interactions:
+        li = m.interactions
+    else:
+        li = [] if m.cfg.get('li_arg') == 'empty' else None
+    return dict(phases=m.phases if 'phases' in sup else None, species=m.species if 'species' in sup else None,
+                reactions=m.reactions, lateral_interactions=li, units=units,
+                T=req['T'], P=req['P'], use_motz_wise=req['motz'], ads_act_method=req['ads_act'])
+
+
 def write_model(m, writer, req, out, ctx, case, part):
     """Run the real writer.  Returns the text (from the returned string or from the file)."""
     from pmutt.io.omkm import write_cti, write_thermo_yaml
     from pmutt.io.ctml_writer import convert
     sup = _supplied(m)
-    kw = dict(phases=m.phases if 'phases' in sup else None, species=m.species if 'species' in sup else None,
-              reactions=m.reactions,
-              lateral_interactions=(m.interactions if m.interactions else None), units=m.units,
-              T=req['T'], P=req['P'], use_motz_wise=req['motz'], ads_act_method=req['ads_act'])
+    kw = _writer_kwargs(m, req)
+    units_before = copy.deepcopy(kw['units']) if isinstance(kw['units'], dict) else None
     tmp = tempfile.mkdtemp(prefix='c07_')
     try:
         if writer == 'yaml':
@@ -1193,25 +1396,118 @@ def write_model(m, writer, req, out, ctx, case, part):
         return text
     finally:
         shutil.rmtree(tmp, ignore_errors=True)
+        if units_before is not None:
+            ctx.true(C_ALONE, kw['units'] == units_before, dict(part=part, item='units dict'), case,
+                     kw['units'], units_before)
 
 
-def _cfg_of(delta):
+def _cfg_of(delta, forms=False):
     cfg = dict(DEF_CFG)
-    cfg.update(delta)
+    if forms:
+        cfg.update(FORM_BASE)
+    cfg.update({k: v for k, v in delta.items() if k != 'cls'})
+    if 'cls' in delta:                        # one class for every species of the model
+        cfg['gas'] = cfg['surf'] = delta['cls']
+    if cfg.get('li_arg') == 'empty':          # lateral_interactions=[] : a model without interactions
+        cfg['li'] = 0
     return cfg
 
 
+C_ALONE = "writing leaves the caller's objects as they were (apart from the ids it assigns)"
+C_H_SAME = 'a model written twice gives the same file'
+
+
+def _identities(m):
+    """Which objects sit where in the caller's containers (writing must not reorder / replace / drop them)."""
+    out = dict(species=[id(s) for s in m.species], reactions=[id(r) for r in m.reactions],
+               interactions=[id(i) for i in m.interactions], phases=[id(p) for p in m.phases],
+               phase_species=[[id(s) for s in p.species] for p in m.phases],
+               nasas=[[id(n) for n in s.nasas] for s in m.species if hasattr(s, 'nasas')],
+               bep_members=[[[id(r) for r in b.cleavage_reactions], [id(r) for r in b.synthesis_reactions]]
+                            for b in m.beps])
+    return out
+
+
+def _forget_assigned(after, before):
+    """ids / names the writer assigned to objects that had none are not a change of the model."""
+    for key, field in (('reactions', 'user_id'), ('interactions', 'user_id'), ('beps', 'name')):
+        for a, b in zip(after[key], before[key]):
+            if b[field] is None and isinstance(a[field], str):
+                a[field] = None
+    return after
+
+
+def _first_difference(a, b, path=''):
+    if type(a) is not type(b) and not (_is_num(a) and _is_num(b)):
+        return '%s: %r / %r' % (path, a, b)
+    if isinstance(a, dict):
+        for k in sorted(set(a) | set(b), key=str):
+            if k not in a or k not in b:
+                return '%s.%s present on one side only' % (path, k)
+            d = _first_difference(a[k], b[k], '%s.%s' % (path, k))
+            if d:
+                return d
+        return None
+    if isinstance(a, (list, tuple)):
+        if len(a) != len(b):
+            return '%s: length %d / %d' % (path, len(a), len(b))
+        for k, (x, y) in enumerate(zip(a, b)):
+            d = _first_difference(x, y, '%s[%d]' % (path, k))
+            if d:
+                return d
+        return None
+    return None if a == b else '%s: %r / %r' % (path, a, b)
+
+
+def check_left_alone(m, ex, ident, req, ctx, case, part):
+    """After the write(s): the model says what its untouched twin says, the containers hold the same objects."""
+    after = _forget_assigned(expected_model(m, req), ex)
+    diff = _first_difference(after, ex)
+    ctx.evals()
+    ok = ctx.true(C_ALONE, diff is None, dict(part=part, item='model'), case, diff, 'unchanged')
+    now = _identities(m)
+    bad = sorted(k for k in ident if ident[k] != now[k])
+    ok &= ctx.true(C_ALONE, not bad, dict(part=part, item='containers'), case, bad, [])
+    return bool(ok)
+
+
+def _prior_other(cfg, ctx):
+    """An unrelated model (other classes, units, T) built and written by both writers in this process first:
+    nothing of it may show up in what follows (module state, caches, default arguments)."""
+    from pmutt.io.omkm import write_cti, write_thermo_yaml
+    other = dict(FORM_BASE, gas='shomate', surf='nasa', units='si' if cfg['units'] != 'si' else 'ex', T=345., P=3.,
+                 ids='user', li_names='user', li=3, Ea='np', A='float', motz=not cfg['motz'], bep=1)
+    other = dict(DEF_CFG, **other)
+    mo = build_model(other)
+    kw = _writer_kwargs(mo, _req(other))
+    write_thermo_yaml(**kw)
+    write_cti(**kw)
+    ctx.trace(2)
+
+
 def _thermo_eval(case, ctx):
-    cfg = _cfg_of(case['delta'])
+    forms = case['kind'] == 'forms'
+    cfg = _cfg_of(case['delta'], forms=forms)
     writer = case['writer']
-    part = 'thermo_yaml' if writer == 'yaml' else 'cti'
+    part = ('forms_yaml' if writer == 'yaml' else 'forms_cti') if forms else \
+        ('thermo_yaml' if writer == 'yaml' else 'cti')
     req = _req(cfg)
     _reset_defaults()
     try:
         try:
+            if cfg.get('prior') == 'other':
+                ctx.tag('prior:other model written first')
+                _prior_other(cfg, ctx)
             m2 = build_model(cfg)
             ex = expected_model(m2, req)
             m = build_model(cfg)
+            ident = _identities(m)
+            first = None
+            if cfg.get('prior') == 'same':
+                # the same objects were already written, by the other writer and by this one
+                ctx.tag('prior:same model written before')
+                write_model(m, 'cti' if writer == 'yaml' else 'yaml', req, 'str', ctx, case, part)
+                first = write_model(m, writer, req, 'str', ctx, case, part)
             text = write_model(m, writer, req, cfg['out'], ctx, case, part)
         except (ValueError, KeyError) as e:
             if _is_refusal(e, cfg):
@@ -1233,11 +1529,18 @@ def _thermo_eval(case, ctx):
             ctx.tag('ads_act:get_G_act')
         if cfg['motz']:
             ctx.tag('motz:on')
+        for key in FORM_TAGGED:
+            if cfg.get(key, DEF_CFG[key]) != DEF_CFG[key]:
+                ctx.tag('%s:%s' % (key, cfg[key]))
         got, probs = (read_thermo_yaml if writer == 'yaml' else read_cti)(text)
         ctx.true(C_WF, got is not None and not probs, dict(part=part, item='file'), case, probs, [])
+        if first is not None:
+            ctx.true(C_H_SAME, _strip_stamp(first) == _strip_stamp(text), dict(part=part, item='file'), case,
+                     _first_diff(_strip_stamp(first), _strip_stamp(text)), 'identical text')
         if got is None:
             return
-        compare(ex, got, req, ctx, case, part, _supplied(m))
+        compare(ex, got, req, ctx, case, part, _supplied(m), _empty_ok(m))
+        check_left_alone(m, ex, ident, req, ctx, case, part)
     finally:
         _reset_defaults()
 
@@ -1273,6 +1576,61 @@ def _run_thermo(shard, ctx):
 
 
 # =============================================================================================
+# C - forms: how the numbers / lists / options are handed over (same evaluation as B2)
+# =============================================================================================
+# base of the product: a one-interface model built directly, every species NASA-9 (so that the interval
+# order is a single deviation), two BEPs, three interactions
+FORM_BASE = dict(build='direct', sites=1, gas='nasa9', surf='nasa9', bep=2, li=3)
+FORM_COORDS = dict(cls=['nasa9', 'nasa', 'shomate'], sp_form=SP_FORMS, n9=list(N9_ORDERS),
+                   Ea=EA_KINDS, A=A_KINDS, stick=STICK_KINDS, beta=BETA_KINDS,
+                   li_form=LI_FORMS, bep_form=BEP_FORMS, bep_names=BEP_NAMES, ph_form=PH_FORMS,
+                   li_arg=['none', 'empty'],
+                   TP_form=['float', 'int', 'np'], units_arg=['obj', 'dict', 'none'], prior=['none', 'other', 'same'],
+                   units=['ex', 'si', 'default'], ids=['auto', 'desc'])
+FORM_FAMILY = dict(cls='S', sp_form='S', n9='S', Ea='R', A='R', stick='R', beta='R', li_form='L', bep_form='L',
+                   bep_names='L', ph_form='L', li_arg='L', TP_form='W', units_arg='W', prior='W', units='W', ids='W')
+FORM_ORDER = sorted(FORM_COORDS)
+FORM_TAGGED = ['sp_form', 'n9', 'Ea', 'A', 'stick', 'beta', 'li_form', 'bep_form', 'bep_names', 'ph_form', 'li_arg',
+               'TP_form', 'units_arg']
+PLANNED_TAGS += ['%s:%s' % (k_, v_) for k_ in FORM_TAGGED for v_ in FORM_COORDS[k_] if v_ != DEF_CFG[k_]]
+PLANNED_TAGS += ['prior:other model written first', 'prior:same model written before', 'ids:desc']
+
+
+def _form_deltas(tier):
+    """Base + every single deviation + pairs.  quick: pairs inside one family (S species, R rate inputs,
+    L interactions / BEPs / phases, W request) and every coordinate with every request coordinate;
+    thorough: all pairs, and all triples inside R and inside S + units."""
+    out = [{}]
+    for k in FORM_ORDER:
+        out += [{k: v} for v in FORM_COORDS[k][1:]]
+    for a, b in itertools.combinations(FORM_ORDER, 2):
+        fa, fb = FORM_FAMILY[a], FORM_FAMILY[b]
+        if tier == 'quick' and not (fa == fb or 'W' in (fa, fb)):
+            continue
+        for va in FORM_COORDS[a][1:]:
+            for vb in FORM_COORDS[b][1:]:
+                out.append({a: va, b: vb})
+    if tier != 'quick':
+        for sub in (['Ea', 'A', 'stick', 'beta'], ['cls', 'sp_form', 'n9', 'units']):
+            out += _deviations({k: FORM_COORDS[k] for k in sub}, sorted(sub), 3)
+    # the interval order only exists for NASA-9 species
+    return [d for d in out if not ('n9' in d and d.get('cls', 'nasa9') != 'nasa9')]
+
+
+def _run_forms(shard, ctx):
+    for delta in shard['deltas']:
+        for writer in ('yaml', 'cti'):
+            case = dict(kind='forms', writer=writer, delta=delta)
+            ctx.state(('forms', writer, sorted(delta.items(), key=str)))
+            ctx.trans(len(delta))
+            if delta:
+                ctx.nontrivial(('forms', writer, sorted(delta.items(), key=str)))
+            ctx.run_case(_thermo_eval, case, dict(part='forms_yaml' if writer == 'yaml' else 'forms_cti', item='write'))
+            if len(delta) == 2:
+                ctx.sample(case, limit=1)
+
+
+# =============================================================================================
 # A1 - write histories
 # =============================================================================================
 EXTRA_RXNS = [('plain', 'N(T) + H(T) + RU(B) = NH(T) + RU(T)', {}),
@@ -1285,22 +1643,63 @@ EXTRA_LIS = [dict(name_i='NH2(T)', name_j='N(T)', intervals=[0., 0.5], slopes=[-
              dict(name_i='NH3(T)', name_j='N(T)', intervals=[0.], slopes=[-2.75])]
 HIST_OPS = ['cti', 'yaml', 'add_rxn', 'add_li']
 HIST_INITS = [dict(ids='auto', li_names='auto'), dict(ids='mix', li_names='mix'), dict(ids='user', li_names='user')]
+# second alphabet: a reaction that brings a new, unnamed BEP; the objects edited in place between two writes
+HIST_OPS2 = ['cti', 'yaml', 'add_bep', 'edit']
+HIST_INITS2 = [dict(ids='auto', li_names='auto', bep_names='auto', bep=2, build='direct', sites=1),
+               dict(ids='auto', li_names='auto', bep_names='clash', bep=2, build='direct', sites=1, surf='nasa9')]
+EXTRA_BEPS = [('NH2-H', dict(slope=0.41, intercept=17.5, direction='cleavage', descriptor='delta_H'),
+               'NH3(T) + RU(T) = NH2-H = NH2(T) + H(T) + RU(B)', 'cleavage'),
+              ('N-N', dict(slope=0.63, intercept=31.25, direction='synthesis', descriptor='delta_H'),
+               '2N(T) + 2RU(B) = N-N = N2 + 2RU(T)', 'synthesis'),
+              ('H-H', dict(slope=0.37, intercept=11.75, direction='cleavage', descriptor='delta_H'),
+               'NH2(T) + H(T) + RU(B) = H-H = NH3(T) + RU(T)', 'cleavage'),
+              ('X-H', dict(slope=0.22, intercept=9.5, direction='synthesis', descriptor='delta_H'),
+               'N(T) + H(T) + RU(B) = X-H = NH(T) + RU(T)', 'synthesis')]
 
-C_H_SAME = 'a model written twice gives the same file'
 
-
-def _hist_add(m, op, n_rx, n_li):
+def _hist_add(m, op, n_rx, n_li, n_bep=0):
     from pmutt import pmutt_list_to_dict
     from pmutt.mixture.cov import PiecewiseCovEffect
-    from pmutt.omkm.reaction import SurfaceReaction
+    from pmutt.omkm.reaction import BEP, SurfaceReaction
     if op == 'add_rxn':
         tag, s, kw = EXTRA_RXNS[n_rx]
-        d = pmutt_list_to_dict(m.species + m.beps)
-        m.reactions.append(SurfaceReaction.from_string(s, d, id=None, **kw))
+        m.reactions.append(SurfaceReaction.from_string(s, m.lookup, id=None, **kw))
         m.rxn_tags.append(tag)
+    elif op == 'add_bep':
+        key, kw, string, direction = EXTRA_BEPS[n_bep]
+        bep = BEP(name=None, **kw)
+        m.beps.append(bep)
+        m.lookup[key] = bep
+        m.reactions.append(SurfaceReaction.from_string(string, m.lookup, id=None, direction=direction))
+        m.rxn_tags.append('bep')
     else:
         m.interactions.append(PiecewiseCovEffect(name=None, **copy.deepcopy(EXTRA_LIS[n_li])))
     attach_phases(m)
+
+
+def _hist_edit(m, n):
+    """The n-th in-place edit of objects the caller still holds: a coefficient inside a species' array, a
+    slope inside an interaction's list, rate inputs of two reactions, a BEP, the site density of a phase."""
+    step = 0.25 * (n + 1)
+    for sp in m.species:
+        if sp.name == 'NH(T)':
+            if hasattr(sp, 'nasas'):
+                sp.nasas[0].a[7] -= 40. * step
+            elif hasattr(sp, 'a_low'):
+                sp.a_low[5] -= 40. * step
+            else:
+                sp.a[5] -= 0.1 * step
+    if m.interactions:
+        m.interactions[0].slopes[0] -= 1.5 * step
+    m.reactions[2].beta = 0.5 + step
+    m.reactions[-1].Ea = 7.5 + step
+    if m.beps:
+        m.beps[0].slope += 0.125 * step
+        m.beps[0].intercept -= step
+    for ph in m.phases:
+        if ph.name == 'terrace':
+            ph.site_density = ph.site_density * (1. + step)
+            m.sden['terrace'] = ph.site_density
 
 
 def _hist_eval(case, ctx):
@@ -1310,23 +1709,32 @@ def _hist_eval(case, ctx):
     try:
         m = build_model(cfg)            # lives through the history, written repeatedly
         m2 = build_model(cfg)           # shadow: same additions, never written
-        pinned_rx, pinned_li = {}, {}
+        pinned_rx, pinned_li, pinned_bp = {}, {}, {}
         last_text = {}
-        n_rx = n_li = 0
+        n_rx = n_li = n_bep = n_edit = 0
         ok = True
         for k, op in enumerate(case['ops']):
             ctx.tag('hist:' + op)
             ctx.trans()
-            if op in ('add_rxn', 'add_li'):
-                _hist_add(m, op, n_rx, n_li)
-                _hist_add(m2, op, n_rx, n_li)
+            if op in ('add_rxn', 'add_li', 'add_bep'):
+                _hist_add(m, op, n_rx, n_li, n_bep)
+                _hist_add(m2, op, n_rx, n_li, n_bep)
                 n_rx += op == 'add_rxn'
                 n_li += op == 'add_li'
+                n_bep += op == 'add_bep'
+                last_text = {}
+                continue
+            if op == 'edit':
+                _hist_edit(m, n_edit)
+                _hist_edit(m2, n_edit)
+                n_edit += 1
                 last_text = {}
                 continue
             part = 'history:' + op
-            if n_rx or n_li:
+            if n_rx or n_li or n_bep:
                 ctx.tag('hist:write after add')
+            if n_edit:
+                ctx.tag('hist:write after edit')
             ex = expected_model(m2, req)
             for j, rec in enumerate(ex['reactions']):
                 if rec['user_id'] is None and j in pinned_rx:
@@ -1334,12 +1742,17 @@ def _hist_eval(case, ctx):
             for j, rec in enumerate(ex['interactions']):
                 if rec['user_id'] is None and j in pinned_li:
                     rec['user_id'] = pinned_li[j]
+            for j, rec in enumerate(ex['beps']):
+                if rec['name'] is None and j in pinned_bp:
+                    rec['name'] = pinned_bp[j]
+            ident = _identities(m)
             text = write_model(m, op, req, 'str', ctx, case, part)
             got, probs = (read_thermo_yaml if op == 'yaml' else read_cti)(text)
             ok &= ctx.true(C_WF, got is not None and not probs, dict(part=part, item='file'), case, probs, [])
             if got is None:
                 return False
             ok &= compare(ex, got, req, ctx, case, part, _supplied(m))
+            ok &= check_left_alone(m, ex, ident, req, ctx, case, part)
             if op in last_text:
                 ctx.tag('hist:same writer twice')
                 ok &= ctx.true(C_H_SAME, _strip_stamp(text) == last_text[op], dict(part=part, item='file'), case,
@@ -1351,6 +1764,9 @@ def _hist_eval(case, ctx):
             if len(got['interactions']) == len(ex['interactions']):
                 for j, r in enumerate(got['interactions']):
                     pinned_li.setdefault(j, r['id'])
+            if len(got['beps']) == len(ex['beps']):
+                for j, r in enumerate(got['beps']):
+                    pinned_bp.setdefault(j, r['id'])
             if not ok:
                 return False
         return bool(ok)
@@ -1368,6 +1784,8 @@ def _first_diff(a, b):
 
 def _run_hist(shard, ctx):
     init, first, depth = shard['init'], shard['first'], shard['depth']
+    alphabet = shard.get('ops') or HIST_OPS
+    limits = dict(add_rxn=len(EXTRA_RXNS), add_li=len(EXTRA_LIS), add_bep=len(EXTRA_BEPS))
     frontier = [[first]]
     for d in range(1, depth + 1):
         nxt = []
@@ -1387,10 +1805,8 @@ def _run_hist(shard, ctx):
             if d == depth:
                 ctx.sample(case, limit=1)
                 continue
-            for op in HIST_OPS:
-                if op == 'add_rxn' and ops.count('add_rxn') >= len(EXTRA_RXNS):
-                    continue
-                if op == 'add_li' and ops.count('add_li') >= len(EXTRA_LIS):
+            for op in alphabet:
+                if op in limits and ops.count(op) >= limits[op]:
                     continue
                 nxt.append(ops + [op])
         frontier = nxt
@@ -1826,7 +2242,11 @@ def bounds(tier):
         thermo=dict(coordinates={k: COORDS[k] for k in COORD_ORDER}, deviation_level=2 if q else 3,
                     configurations=len(_thermo_deltas(tier)), writers=['write_thermo_yaml', 'write_cti'],
                     species=len(ORDER_T) + len(ORDER_S), reactions='8-11', interactions='0-3', beps='0-2'),
-        histories=dict(ops=HIST_OPS, inits=HIST_INITS, depth=3 if q else 4))
+        histories=dict(ops=HIST_OPS, inits=HIST_INITS, ops2=HIST_OPS2, inits2=HIST_INITS2, depth=3 if q else 4),
+        forms=dict(base=FORM_BASE, coordinates={k: FORM_COORDS[k] for k in FORM_ORDER}, families=FORM_FAMILY,
+                   deviation_level=('singles + pairs inside a family and with every request coordinate' if q else
+                                    'singles + all pairs + triples inside R and inside S+units'),
+                   configurations=len(_form_deltas(tier)), writers=['write_thermo_yaml', 'write_cti']))
 
 
 def _chunks(items, n):
@@ -1850,12 +2270,19 @@ def shards(tier):
     for init in HIST_INITS:
         for first in HIST_OPS:
             out.append(dict(kind='hist', init=init, first=first, depth=3 if q else 4))
+    for init in HIST_INITS2:
+        for first in HIST_OPS2:
+            out.append(dict(kind='hist', init=init, first=first, depth=3 if q else 4, ops=HIST_OPS2))
+    fd = _form_deltas(tier)
+    for ch in _chunks(fd, 16 if q else 48):
+        out.append(dict(kind='forms', deltas=ch))
     return out
 
 
 def run_shard(shard, ctx):
     _reset_defaults()
-    {'phases': _run_phases, 'reactor': _run_reactor, 'thermo': _run_thermo, 'hist': _run_hist}[shard['kind']](shard, ctx)
+    {'phases': _run_phases, 'reactor': _run_reactor, 'thermo': _run_thermo, 'hist': _run_hist,
+     'forms': _run_forms}[shard['kind']](shard, ctx)
 
 
 def check_case(case, ctx):
@@ -1866,7 +2293,7 @@ def check_case(case, ctx):
         _ph_replay(case, ctx, check_all=True)
     elif kind == 'reactor':
         _reactor_eval(case, ctx)
-    elif kind == 'thermo':
+    elif kind in ('thermo', 'forms'):
         _thermo_eval(case, ctx)
     elif kind == 'hist':
         _hist_eval(case, ctx)
